@@ -265,8 +265,10 @@ const optionsVar = "github.com/alibaba/RedisShake/redis-shake/configure.Options"
 var (
 	mutatedGlobal = map[*types.Var]bool{}
 	globalPkgs    = map[*types.Package]bool{}
-	sharedObj     = map[*types.Var]bool{}        // pointer/interface globals whose object is used through methods
-	sharedFuncs   = map[*types.Func]*types.Var{} // functions that receive mutated package-level memory as an argument
+	sharedObj     = map[*types.Var]bool{}           // pointer/interface globals whose object is used through methods
+	escapedPkgs   = map[*types.Package]*types.Var{} // packages in which a package-level slice/map is handed on as a value
+	valueReadOnly = map[*ast.Ident]bool{}           // identifier occurrences that only index, measure or range over the value
+	sharedFuncs   = map[*types.Func]*types.Var{}    // functions that receive mutated package-level memory as an argument
 )
 
 func isPkgLevel(v *types.Var) bool {
@@ -316,6 +318,19 @@ func markMutated(v *types.Var) {
 	mutatedGlobal[v] = true
 }
 
+// baseIdent: the identifier an expression like g, pkg.g or (g) denotes, if any.
+func baseIdent(e ast.Expr) *ast.Ident {
+	switch x := e.(type) {
+	case *ast.ParenExpr:
+		return baseIdent(x.X)
+	case *ast.Ident:
+		return x
+	case *ast.SelectorExpr:
+		return x.Sel
+	}
+	return nil
+}
+
 // markSharedObj: v is a package-level pointer or interface whose object has methods called on it. Objects of types from
 // outside the tool's module (prometheus vectors, regexps) are taken to synchronise themselves and are left alone;
 // interfaces (unknown implementation) and pointers to the tool's own types count.
@@ -362,7 +377,19 @@ func analyseGlobals(pkgs []*packages.Package, skip func(string) bool) {
 								if !types.Identical(v.Type(), types.Universe.Lookup("error").Type()) && u.NumMethods() > 0 {
 									markSharedObj(v)
 								}
+							case *types.Slice, *types.Map:
+								// a package-level slice or map handed on as a value (stored in a struct, passed to a
+								// function, re-sliced): whoever holds the copy writes into memory all goroutines share,
+								// and where that happens cannot be told statically -> the whole package is treated as
+								// working on shared memory. Element reads, len/cap and range do not count.
+								if !valueReadOnly[x] && globalPkgs[v.Pkg()] && v.Pkg().Path()+"."+v.Name() != optionsVar {
+									escapedPkgs[p.Types] = v
+								}
 							}
+						}
+					case *ast.IndexExpr:
+						if id := baseIdent(x.X); id != nil {
+							valueReadOnly[id] = true
 						}
 					case *ast.AssignStmt:
 						if x.Tok != token.DEFINE {
@@ -373,6 +400,9 @@ func analyseGlobals(pkgs []*packages.Package, skip func(string) bool) {
 					case *ast.IncDecStmt:
 						markMutated(rootVar(info, x.X))
 					case *ast.RangeStmt:
+						if id := baseIdent(x.X); id != nil {
+							valueReadOnly[id] = true
+						}
 						if x.Tok == token.ASSIGN {
 							if x.Key != nil {
 								markMutated(rootVar(info, x.Key))
@@ -390,6 +420,11 @@ func analyseGlobals(pkgs []*packages.Package, skip func(string) bool) {
 						if id, ok := x.Fun.(*ast.Ident); ok && len(x.Args) > 0 {
 							if _, isB := info.Uses[id].(*types.Builtin); isB && (id.Name == "append" || id.Name == "copy") {
 								markMutated(rootVar(info, x.Args[0]))
+							}
+							if _, isB := info.Uses[id].(*types.Builtin); isB && (id.Name == "len" || id.Name == "cap") {
+								if a := baseIdent(x.Args[0]); a != nil {
+									valueReadOnly[a] = true
+								}
 							}
 						}
 						if sel, ok := x.Fun.(*ast.SelectorExpr); ok {
@@ -491,6 +526,7 @@ func analyseGlobals(pkgs []*packages.Package, skip func(string) bool) {
 		}
 	}
 	stats["shared_memory_callees"] = len(sharedFuncs)
+	stats["packages_with_escaping_global_memory"] = len(escapedPkgs)
 }
 
 // refsMutatedGlobal reports the first mutated package-level variable referenced inside n (function literals excluded:
@@ -714,6 +750,9 @@ func (f *fileCtx) lockBearingMethod(stack []ast.Node) bool {
 // sharedStateFunc returns the mutated package-level variable referenced by the innermost function around the node on
 // top of the stack (nil if none, or if that function is a top-level func init).
 func (f *fileCtx) sharedStateFunc(stack []ast.Node) *types.Var {
+	if v := escapedPkgs[f.pkg.Types]; v != nil && inFunc(stack) {
+		return v
+	}
 	for i := len(stack) - 1; i >= 0; i-- {
 		var body *ast.BlockStmt
 		switch x := stack[i].(type) {
